@@ -222,6 +222,8 @@ def stmt(s, ind=0):
         return "let %s = %s;" % (nm(s["nm"]), expr(s["x"], ind))
     if k == "clet":
         return "let %s :: %s = %s;" % (nm(s["nm"]), con_text(s["con"], ind), expr(s["x"], ind))
+    if k == "cstmt":
+        return "constraint %s = %s;" % (nm(s["nm"]), con_text(s["x"], ind))
     if k == "expr":
         return "%s;" % expr(s["x"], ind)
     if k == "assert":
@@ -259,6 +261,9 @@ def norm_val_spec(v):
         return ("list", tuple(norm_val_spec(x) for x in v["es"]))
     if t == "tuple":
         return ("tuple", tuple((nm(f["nm"]), norm_val_spec(f["val"])) for f in v["fs"]))
+    if t == "con":
+        return ("constraint", tuple(("exact", norm_val_spec(a["v"])) if a["a"] == "exact" else
+                                    ("irange", tuple(a["lo"]), tuple(a["hi"])) for a in v["arms"]))
     raise ValueError("spec value tag " + t)
 
 
@@ -288,7 +293,11 @@ def norm_val_impl(v):
     if t == "tuple":
         return ("tuple", tuple((f["nm"], norm_val_impl(f["val"])) for f in v["fs"]))
     if t == "constraint":
-        return ("constraint",)
+        def arm(a):
+            if a["a"] == "exact":
+                return ("exact", norm_val_impl(a["val"]))
+            return (a["a"], tuple(a["lo"]) if a["a"] == "irange" else None, tuple(a["hi"]) if a["a"] == "irange" else None)
+        return ("constraint", tuple(arm(a) for a in v["arms"]))
     raise ValueError("impl value tag " + t)
 
 
@@ -301,6 +310,8 @@ def norm_ast_spec(e):
             return ("let", nm(e["nm"]), norm_ast_spec(e["x"]))
         if s == "clet":
             return ("clet", nm(e["nm"]), norm_ast_spec(e["x"]), norm_ast_spec(e["con"]))
+        if s == "cstmt":
+            return ("constraint", nm(e["nm"]), norm_ast_spec(e["x"]))
         return (s, norm_ast_spec(e["x"]))
     if k == "lit":
         return ("lit", norm_val_spec(e["v"]))
@@ -355,6 +366,8 @@ def norm_ast_impl(e):
             if e.get("con"):
                 return ("clet", e["nm"], norm_ast_impl(e["x"]), norm_ast_impl(e["con"][0]))
             return ("let", e["nm"], norm_ast_impl(e["x"]))
+        if s == "constraint":
+            return ("constraint", e["nm"], norm_ast_impl(e["x"]))
         return (s, norm_ast_impl(e["x"]))
     if k == "lit":
         return ("lit", norm_val_impl(e["val"]))
